@@ -49,6 +49,9 @@ type FileWrite struct {
 
 // Step is one action of a history.
 type Step struct {
+	// Cwd (run steps): the working directory of the process while spok runs — one of three scratch
+	// directories beside the project. Where spok is started from has no bearing on the project's cache.
+	Cwd int `json:"cwd,omitempty"`
 	Op      string         `json:"op"` // write revert delete run rmcache
 	File    string         `json:"file,omitempty"`
 	Content string         `json:"content,omitempty"`
@@ -220,6 +223,10 @@ func doRun(root, src string, st Step, onStart ...func(string)) runResult {
 	if err != nil {
 		return runResult{err: fmt.Errorf("harness: generated spokfile does not load: %w", err), rec: rec}
 	}
+	cwd := filepath.Join(filepath.Dir(root), fmt.Sprintf("started-in-%d", st.Cwd))
+	if err := os.MkdirAll(cwd, 0o755); err == nil {
+		_ = os.Chdir(cwd)
+	}
 	res, err := sf.Run(iostream.Null(), rec, st.Force, st.Tasks...)
 	return runResult{results: res, err: err, rec: rec}
 }
@@ -243,6 +250,9 @@ func execCache(id string, s *ev.Shard, root string, c CacheCase) *rp.Fail {
 		return &rp.Fail{Sig: "harness", Msg: err.Error()}
 	}
 	defer os.RemoveAll(root)
+	for k := 0; k < 3; k++ {
+		_ = os.RemoveAll(filepath.Join(filepath.Dir(root), fmt.Sprintf("started-in-%d", k)))
+	}
 	cur := map[string]fileState{}
 	prev := map[string]fileState{}
 	for f, content := range c.Init {
